@@ -67,7 +67,7 @@ def _tracer_receiver(attr):
     receiver comes from (text mentions a tensor, or it is bound by iterating over tensors)."""
     recv = attr.value
     text = norm(recv).lower()
-    if "tensor" in text or "coord" in text and "expr" not in text:
+    if ("tensor" in text or "coord" in text) and "expr" not in text:
         return True
     root = recv
     while isinstance(root, (ast.Attribute, ast.Subscript)):
